@@ -1,5 +1,6 @@
 import DaskModel.Lemmas.CumulativeLemmas
 import DaskModel.Lemmas.OverlapLemmas
+import DaskModel.Lemmas.OverlapReverse
 /-!
 # C46 — window, cumulative and shift operations are seamless across partitions
 
@@ -18,7 +19,12 @@ Full statement (for the modelled logic):
 * `ffill_unlimited` — `Series.ffill()` without limit (`FillnaCheck` + `FFill(before=1)`): whenever the
   code does not raise, the result is pandas' ffill of the concatenation.
 
-Not covered by theorems (validated at API level only): `bfill()` without limit (mirror image), time-based windows (`before` a Timedelta),
+* `overlap_reverse_symmetric` — `MapOverlap` commutes with reversing the frame (rows and partitions), `before` and
+  `after` swapped, for EVERY per-block function, including which partitionings raise; `bfill_unlimited` —
+  `Series.bfill()` without limit is pandas' bfill whenever the code does not raise (derived from `ffill_unlimited`
+  through `daskBfill_reverse`).
+
+Not covered by theorems (validated at API level only): time-based windows (`before` a Timedelta),
 pandas' rolling kernels themselves, the DataFrame (2-d) path of the cumulative ops — see
 `cum_df_refuted` / `cum_df_partial` for what the model says about one column of it.
 -/
@@ -713,4 +719,133 @@ example : mapOverlap (winFn 2 0 (gShiftBack 2)) 2 0 [[some 1, some 2, some 3], [
     = some [[none, none, some 1], [some 2, some 3], [some 4]] := by decide
 
 end overlap
+end Dask.C46
+
+/-! ## reversal symmetry and unlimited bfill (review round) -/
+namespace Dask.C46
+open Dask.Overlap
+
+/-- **`MapOverlap` is symmetric under reversal** (rows inside partitions and the partition order): with `before`
+    and `after` swapped and the per-block function conjugated by reversal the result is the reversed result, and
+    the reversed call raises exactly when the original does. -/
+theorem overlap_reverse_symmetric {α β} (func : List α → List β) (b a : Nat) (parts : List (List α)) :
+    mapOverlap (fun x => (func x.reverse).reverse) a b (revParts parts) = (mapOverlap func b a parts).map revParts :=
+  mapOverlap_reverse func b a parts
+
+/-- the partition passes `fillna_check` -/
+def fillOK (fill : List Cell → List Cell) (p : List Cell) : Bool := !((fill p).all Option.isNone)
+
+theorem fillnaCheck_true (fill : List Cell → List Cell) (p : List Cell) :
+    fillnaCheck fill true p = if fillOK fill p then some (fill p) else none := by
+  cases h : (fill p).all Option.isNone <;> simp [fillnaCheck, fillOK, h]
+
+theorem fillnaCheck_false (fill : List Cell → List Cell) (p : List Cell) : fillnaCheck fill false p = some (fill p) := by
+  simp [fillnaCheck]
+
+/-- past the unchecked partition every partition is checked -/
+theorem fillnaCheckAll_all (fill : List Cell → List Cell) (skip : Nat) :
+    ∀ (parts : List (List Cell)) (i : Nat), skip < i →
+      fillnaCheckAll fill skip i parts = if parts.all (fillOK fill) then some (parts.map fill) else none := by
+  intro parts
+  induction parts with
+  | nil => intro i _; rfl
+  | cons p ps ih =>
+    intro i hi
+    have hne : (i != skip) = true := by simp; omega
+    simp only [fillnaCheckAll, hne, fillnaCheck_true, ih (i + 1) (by omega), List.all_cons, List.map_cons]
+    cases fillOK fill p <;> cases ps.all (fillOK fill) <;> rfl
+
+/-- `FillnaCheck` of `ffill`: every partition but the FIRST is checked -/
+theorem fillnaCheckAll_first (fill : List Cell → List Cell) (parts : List (List Cell)) :
+    fillnaCheckAll fill 0 0 parts = if parts.tail.all (fillOK fill) then some (parts.map fill) else none := by
+  cases parts with
+  | nil => rfl
+  | cons p ps =>
+    simp only [fillnaCheckAll, bne_self_eq_false, fillnaCheck_false, fillnaCheckAll_all fill 0 ps 1 (by omega), List.tail_cons,
+      List.map_cons]
+    cases ps.all (fillOK fill) <;> rfl
+
+/-- `FillnaCheck` of `bfill`: every partition but the LAST is checked -/
+theorem fillnaCheckAll_last (fill : List Cell → List Cell) :
+    ∀ (parts : List (List Cell)) (i : Nat),
+      fillnaCheckAll fill (i + (parts.length - 1)) i parts =
+        if parts.dropLast.all (fillOK fill) then some (parts.map fill) else none := by
+  intro parts
+  induction parts with
+  | nil => intro i; rfl
+  | cons p ps ih =>
+    intro i
+    by_cases hps : ps = []
+    · subst hps; simp [fillnaCheckAll, fillnaCheck_false]
+    · have hlen : 1 ≤ ps.length := by cases ps <;> simp_all
+      have hne : (i != i + ((p :: ps).length - 1)) = true := by simp only [List.length_cons, bne_iff_ne]; omega
+      have hidx : i + ((p :: ps).length - 1) = (i + 1) + (ps.length - 1) := by simp only [List.length_cons]; omega
+      rw [fillnaCheckAll, hne, fillnaCheck_true, hidx, ih (i + 1)]
+      have hdl : (p :: ps).dropLast = p :: ps.dropLast := by cases ps <;> simp_all
+      simp only [hdl, List.all_cons, List.map_cons]
+      cases fillOK fill p <;> cases ps.dropLast.all (fillOK fill) <;> rfl
+
+theorem bfillAll_eq (p : List Cell) : bfillAll p = (ffillAll none p.reverse).reverse := rfl
+
+theorem fillOK_bfill (p : List Cell) : fillOK bfillAll p = fillOK (ffillAll none) p.reverse := by
+  simp [fillOK, bfillAll_eq]
+
+/-- **`bfill()` is `ffill()` of the reversed frame**, as dask lowers them (checks and overlap included) -/
+theorem daskBfill_reverse (parts : List (List Cell)) :
+    daskBfillUnlimited parts = (daskFfillUnlimited (revParts parts)).map revParts := by
+  unfold daskBfillUnlimited daskFfillUnlimited
+  have hchk : fillnaCheckAll bfillAll (parts.length - 1) 0 parts =
+      (fillnaCheckAll (ffillAll none) 0 0 (revParts parts)).map revParts := by
+    have := fillnaCheckAll_last bfillAll parts 0
+    simp only [Nat.zero_add] at this
+    rw [this, fillnaCheckAll_first]
+    have hall : (revParts parts).tail.all (fillOK (ffillAll none)) = parts.dropLast.all (fillOK bfillAll) := by
+      have hf : (fillOK (ffillAll none)) ∘ List.reverse = fillOK bfillAll := by
+        funext p; simp [fillOK_bfill]
+      simp only [revParts, ← List.map_tail, List.tail_reverse, List.all_map, List.all_reverse, hf]
+    rw [hall]
+    cases parts.dropLast.all (fillOK bfillAll) with
+    | false => rfl
+    | true =>
+      simp only [if_true, Option.map_some, Option.some.injEq]
+      have hb : bfillAll = fun x => (ffillAll none x.reverse).reverse := by funext x; rfl
+      simp only [revParts, List.map_reverse, List.map_map, List.reverse_reverse, Function.comp_def, hb]
+  rw [hchk]
+  cases hc : fillnaCheckAll (ffillAll none) 0 0 (revParts parts) with
+  | none => rfl
+  | some ps =>
+    simp only [Option.map_some]
+    have := mapOverlap_reverse bfillAll 0 1 (revParts ps)
+    rw [revParts_revParts] at this
+    have hf : (fun x : List Cell => (bfillAll x.reverse).reverse) = ffillAll none := by
+      funext x; simp [bfillAll_eq]
+    rw [hf] at this
+    rw [this, Option.map_map]
+    cases mapOverlap bfillAll 0 1 (revParts ps) with
+    | none => rfl
+    | some o => simp [revParts_revParts]
+
+/-- **`Series.bfill()` without limit** (`FillnaCheck` + `BFill(after=1)`): whenever the code does not raise, the
+    result is pandas' bfill of the whole series, partition lengths preserved. -/
+theorem bfill_unlimited (parts out : List (List Cell)) (h : daskBfillUnlimited parts = some out) :
+    out.flatten = bfillAll parts.flatten ∧ out.map List.length = parts.map List.length := by
+  rw [daskBfill_reverse] at h
+  cases hf : daskFfillUnlimited (revParts parts) with
+  | none => rw [hf] at h; cases h
+  | some o =>
+    rw [hf] at h
+    simp only [Option.map_some, Option.some.injEq] at h
+    obtain ⟨h1, h2⟩ := ffill_unlimited (revParts parts) o hf
+    subst h
+    constructor
+    · rw [revParts_flatten, h1, revParts_flatten, bfillAll_eq]
+    · have : (revParts o).map List.length = (o.map List.length).reverse := by
+        simp [revParts, List.map_reverse, Function.comp_def]
+      rw [this, h2]
+      simp [revParts, List.map_reverse, Function.comp_def]
+
+example : daskBfillUnlimited [[none, some 1], [none, some 2, none], [some 5, none]]
+    = some [[some 1, some 1], [some 2, some 2, some 5], [some 5, none]] := by decide
+example : daskBfillUnlimited [[none, none], [some 1]] = none := by decide
+
 end Dask.C46
